@@ -72,7 +72,7 @@ type Upstream struct {
 	sendBufferDataPointsCount                       int
 
 	idAlias  uint32
-	wireConn *wire.ClientConn
+	wireConn atomic.Pointer[wire.ClientConn] // replaced on resume while other goroutines read it
 	// connGeneration is connStatus.Reconnects() at the time wireConn was obtained.
 	connGeneration uint64
 
@@ -160,7 +160,7 @@ func (u *Upstream) closeWithError(ctx context.Context, causeError error, opts ..
 
 	// Only the two counters are needed here. Taking a full state snapshot without the stream lock
 	// iterated the alias map while the ack dispatcher may be writing to it.
-	resp, err := u.wireConn.SendUpstreamCloseRequest(ctx, &message.UpstreamCloseRequest{
+	resp, err := u.wireConn.Load().SendUpstreamCloseRequest(ctx, &message.UpstreamCloseRequest{
 		StreamID:            u.ID,
 		TotalDataPoints:     atomic.LoadUint64(&u.totalDataPoints),
 		FinalSequenceNumber: u.sequence.CurrentValue(),
@@ -312,7 +312,7 @@ func (u *Upstream) run(isResume bool) error {
 			for seqNum, dpgs := range m {
 				u.mu.Lock()
 				dpg, ids := dpgs.toUpstreamDataPointGroups(u.revDataIDAliases)
-				idAlias, wireConn := u.idAlias, u.wireConn
+				idAlias, wireConn := u.idAlias, u.wireConn.Load()
 				u.mu.Unlock()
 				chunk := &message.UpstreamChunk{
 					StreamIDAlias: idAlias,
@@ -490,7 +490,7 @@ func (u *Upstream) flush(ctx context.Context) error {
 	u.upstreamChunkResultChs[msgChunk.StreamChunk.SequenceNumber] = resultCh
 	// the chunk carries the stream alias of the current wire connection: it must go out on that
 	// connection and no other (after a resume the same alias may belong to another stream)
-	go u.sendChunkAndWaitAck(ctx, u.wireConn, msgChunk, resultCh)
+	go u.sendChunkAndWaitAck(ctx, u.wireConn.Load(), msgChunk, resultCh)
 	return nil
 }
 
@@ -694,9 +694,7 @@ func (u *Upstream) resume(newConn *wire.ClientConn, generation uint64) error {
 	// No chunk is cut while the stream is resuming (the flush loop is not running), so the wire
 	// connection can be switched before the new alias is known; chunks cut earlier keep the
 	// connection they were cut for.
-	u.mu.Lock()
-	u.wireConn = newConn
-	u.mu.Unlock()
+	u.wireConn.Store(newConn)
 
 	var resp *message.UpstreamResumeResponse
 	var resErr error
